@@ -261,7 +261,7 @@ def process(ctx, n):
         if sorted(m['nodes']) != real['nodes'] or sorted(m['edges']) != real['edges']:
             which = 'nodes' if sorted(m['nodes']) != real['nodes'] else 'edges'
             ctx.corr_break('compiled-net.' + which, case, sorted(m[which]), real[which])
-            continue
+            # (no `continue`: the property itself is still checked below against the denotation)
         if 'gen_error' in real:
             if all(r[1] is not None for r in m['results']):
                 ctx.fail_input(case, 'generate failed (%s) on a graph whose requested outputs all have a dataflow meaning' % real['gen_error'],
